@@ -73,13 +73,14 @@ def suite_fonts(ctx, res, n):
 
     rng = ctx.rng
     stats = {}
-    for _ in range(n):
+    for k_font in range(n):
         seed = rng.getrandbits(40)
         import random
         r = random.Random(seed)
         fea = layoutgen.gen_fea(r)
         try:
-            font = layoutgen.build_font(fea, colr_rng=r)
+            # every fourth font has CFF outlines: glyph names are paired with charstrings through the CFF charset
+            font = layoutgen.build_font(fea, colr_rng=r, cff=(k_font % 4 == 1))
         except Exception as e:  # noqa
             res.stat("fea-build-err:" + type(e).__name__)
             continue
